@@ -3,6 +3,7 @@ CONSTANTS
     Replies <- MCReplies
     Delays = {"none", "short", "long"}
     EofCheck = "stale-errno"
+    WriteMode = "nosignal"
     EmitEdges = FALSE
-INVARIANTS PamSuccessOnlyOnOK PamSuccessOnOK
+INVARIANTS PamSuccessOnlyOnOK PamSuccessOnOK PamYieldsCode
 PROPERTIES PamTerminates
